@@ -189,13 +189,22 @@ int main(void)
 	    result_int(op, r, r == -1);
 	} else if (strcmp(op, "mkc") == 0) {
 	    /* mkc h n: n sigma values 1/8, sigma_frequency_vector NULL (n > 1: taken from the vector
-	       parameter at the end of the chain) */
+	       parameter at the end of the chain).
+	       mkc h n f1 .. fk: the parameter's OWN sigma frequency grid, a heap array of exactly the k
+	       entries given (k = n in generated scripts), so that ASan sees any read beyond them. */
 	    int h = (int)nexti(); int n = (int)nexti();
+	    int k = ntok - ptok;
+	    double *sf = NULL;
 	    double *sigma = calloc((n > 0 ? n : 0) + 1, sizeof(double));
 	    for (int i = 0; i < n; ++i) sigma[i] = 0.125;
-	    int r = vnacal_make_correlated_parameter(vcp, h, NULL, n, sigma);
+	    if (k > 0) {
+		sf = malloc((size_t)k * sizeof(double));
+		for (int i = 0; i < k; ++i) sf[i] = (double)nexti();
+	    }
+	    int r = vnacal_make_correlated_parameter(vcp, h, sf, n, sigma);
 	    result_int(op, r, r == -1);
 	    free(sigma);
+	    free(sf);
 	} else if (strcmp(op, "delp") == 0) {
 	    int h = (int)nexti();
 	    int r = vnacal_delete_parameter(vcp, h);
